@@ -238,6 +238,14 @@ def roundtrip_length(ctx, value, unit, tag):
         ctx.check(back.unit == unit and back.value == Decimal(str(value)), ("C18", "Unit", "roundtrip"),
                   f"Unit({value!r},{unit!r}) -> {s!r} -> value={back.value!r} unit={back.unit!r}", case)
         ctx.check(str(back) == s, ("C18", "Unit", "re-encode"), f"{s!r} -> {str(back)!r}", case)
+        # the number given as a bare string takes the unit argument (documented default cm), every time, whatever was
+        # parsed before
+        bare = str(value)
+        for un in (unit, None, "pt", unit):
+            u2 = Unit(bare, un) if un is not None else Unit(bare)
+            want_unit = un or "cm"
+            ctx.check(u2.unit == want_unit and u2.value == Decimal(bare) and str(u2) == bare + want_unit, ("C18", "Unit", "bare-string-unit"),
+                      f"Unit({bare!r}{'' if un is None else ', ' + repr(un)}) -> value={u2.value!r} unit={u2.unit!r} str={str(u2)!r}", case)
 
 
 ALIEN = ["x", " ", "/", "#", "\uff11", "\u0663", "\n"]
